@@ -122,7 +122,7 @@ def run(tier="quick", seed=1, replay=None):
                     m += 1
                     recs_in.append(dict(kind="case", id=f"real{m}", fam="real", pre="llama3", text=list(s), specials=sp, add=False))
             recs_in += vf.load_witnesses(PROP)
-        cov["bounds"] = (f"toy vocabularies (256 byte tokens + 18 merged pieces + 1 control token each): every text of <= {maxu} units (and sampled texts of <= 7 units) over 16 (bpe) / 13 (spm) "
+        cov["bounds"] = (f"toy vocabularies (256 byte tokens + merged pieces + 2 control tokens each): every text of <= {maxu} units (and sampled texts of <= 7 units) over 17 (bpe) / 14 (spm) "
                          "units incl. blank, ~, DEL, 0x01, soft hyphen, no-break space, 4-byte emoji, combining mark, special-token literal and its look-alikes; "
                          f"real llama 3.2 vocabulary: every text of <= {2 if quick else 3} units over 26 concrete units (scripts, digits, whitespace runs, contractions, special literals)")
         recs, v, _ = vf.replay_and_validate(wd, recs_in, "./model", "TestVFTokenizerReplay", ["model"], "Trace_Tokenizer", go_timeout=1800)
